@@ -261,7 +261,28 @@ trivial = empty input; distinct = distinct input contents; families: every lengt
     let total: u64 = ctx.tier.pick(6_000, 1_500_000);
     par_cases(ctx, total, |i, obs| {
         let mut rng = Rng::derive(seed, 6, 100 + i);
-        let (input, family): (Vec<u8>, &str) = match rng.below(7) {
+        let (input, family): (Vec<u8>, &str) = match rng.below(8) {
+            7 => {
+                // a structurally valid volume whose radials carry undocumented codes (radial
+                // status 6..=255, spacing codes, date 0 ...): scan() must still return
+                let p = VolParams { pattern: ElevPattern::Increasing, radials_per_run: (1, 3), max_gates: 8, meta_density: 4 };
+                let mut spec = gen_volume(&mut rng, &p);
+                for it in spec.items.iter_mut() {
+                    if let crate::volgen::StreamItem::Radial { msg, .. } = it {
+                        msg.hdr.status = rng.u8();
+                        msg.hdr.spacing = rng.u8();
+                        msg.hdr.comp = rng.u8();
+                        msg.hdr.blanking = rng.u8();
+                        if rng.chance(1, 4) {
+                            msg.hdr.date = *rng.pick(&[0u16, 1, 65_535]);
+                        }
+                        if rng.chance(1, 4) {
+                            msg.hdr.time = *rng.pick(&[86_400_000u32, u32::MAX, 1 << 31]);
+                        }
+                    }
+                }
+                (spec.build(), "valid-volume-undocumented-codes")
+            }
             5 | 6 => {
                 // hostile *message streams* (C04's generators: block count 0/65535, wild
                 // pointers, mutated frames ...) reached through the C06 entry points: as a raw
